@@ -291,6 +291,7 @@ func (st *State) mapGet(mr MapRef, key Value) (Value, bool) {
 	if mr.O == nil {
 		return nil, false
 	}
+	st.guardCheck(mr, false)
 	m := st.rd(mr.O).V.(*MapV)
 	i, ok := st.mapLookup(m, key)
 	if !ok {
@@ -303,6 +304,7 @@ func (st *State) mapSet(mr MapRef, key, val Value) {
 	if mr.O == nil {
 		st.throwRuntime("assignment to entry in nil map")
 	}
+	st.guardCheck(mr, true)
 	// lookup first (may fork) on the readable version, then write
 	m := st.rd(mr.O).V.(*MapV)
 	i, ok := st.mapLookup(m, key)
@@ -325,6 +327,7 @@ func (st *State) mapDelete(mr MapRef, key Value) {
 	if mr.O == nil {
 		return
 	}
+	st.guardCheck(mr, true)
 	m := st.rd(mr.O).V.(*MapV)
 	i, ok := st.mapLookup(m, key)
 	if !ok {
